@@ -261,6 +261,46 @@ def large_reads(rep):
             rep.add_violation("C02|large-read|residue-plus-read-over-bound",
                               f"partial frame of {residue} bytes buffered, then a {len(stream) - residue}-byte read completing it: {short}",
                               {"world": "c02", "kind": "residue", "residue": residue})
+    # a DATA frame whose data field is longer than the 256-byte randomisation sequence cannot be decoded by any conforming
+    # receiver: valid CRC or not, nothing may be handed up and the expected number must not move
+    for n in (257, 300, 600):
+        body = ref_ash.with_crc(bytes([0x00]) + bytes((i * 5 + 1) & 0xFF for i in range(n)))
+        for cuts in ((), (100,), tuple(range(50, len(body), 50))):
+            n_feeds += 1
+            proto, tr, rec, ref = fresh(0)
+            wire = ref_ash.stuff(body) + b"\x7e" + ref_ash.wire(ref_ash.enc_data(0, 0, 0, P3))
+            pos = 0
+            try:
+                for c in list(cuts) + [len(wire)]:
+                    proto.data_received(wire[pos:c])
+                    pos = c
+            except Exception as e:  # noqa
+                rep.add_violation("C02|overlong|raised", f"{n}-byte data field: data_received raised {type(e).__name__}", {"world": "c02", "kind": "overlong", "n": n})
+                continue
+            ups = [e for e in rec.events if e[0] == "up"]
+            if len(ups) != 1 or ups[0][1] != P3:
+                rep.add_violation("C02|overlong|delivered", f"a DATA frame with a {n}-byte data field (valid CRC) followed by a normal frame 0: handed up "
+                                  f"{[(u[0], len(u[1])) for u in ups]}, expected only the normal frame", {"world": "c02", "kind": "overlong", "n": n})
+    # after more than a buffer-full of bytes without any control byte (several reads), a FLAG and normal frames in short reads are
+    # decoded as usual: the receiver must not stay deaf
+    for total, piece in ((1500, 700), (2300, 1024), (5000, 999)):
+        n_feeds += 1
+        proto, tr, rec, ref = fresh(0)
+        try:
+            left = total
+            while left > 0:
+                proto.data_received(bytes([0x42]) * min(piece, left))
+                left -= piece
+            good = b"\x7e" + ref_ash.wire(ref_ash.enc_data(0, 0, 0, P3)) + ref_ash.wire(ref_ash.enc_data(1, 0, 0, P3))
+            for i in range(0, len(good), 3):
+                proto.data_received(good[i:i + 3])
+        except Exception as e:  # noqa
+            rep.add_violation("C02|recovery|raised", f"garbage then frames: data_received raised {type(e).__name__}", {"world": "c02", "kind": "recovery", "total": total})
+            continue
+        ups = [e for e in rec.events if e[0] == "up"]
+        if len(ups) != 2:
+            rep.add_violation("C02|recovery|deaf", f"after {total} bytes without a control byte (reads of {piece}), a FLAG and two in-sequence DATA frames in 3-byte reads: "
+                              f"{len(ups)} payload(s) handed up, expected 2", {"world": "c02", "kind": "recovery", "total": total, "piece": piece})
     return n_feeds
 
 
